@@ -2,7 +2,8 @@
 Plain replays (no explorer) of the defects D38-D62 (DESIGN.md 10.2 / 10.5) found by the checks after the independent
 review of the unchanged tree, and fixed in /repo.
 Run:  PYTHONPATH=/repo:/verif /venv/bin/python -m pytest /verif/tests/test_fixes_d38_d62.py -q
-Each test fails on the pinned tree (b965850) and passes on the repaired tree.
+Each test fails on the tree as it was before the corresponding repair and passes on the repaired tree (all but d64 also fail
+on the pinned tree b965850: D64 became reachable through the Python-float clock introduced by the D40 repair).
 """
 import os, logging, signal
 import numpy as np
@@ -320,3 +321,136 @@ def test_d63_get_level_counts_whole_fine_spectra():
     lv = level_utils.get_level(10.0, be, 1, num_blocks=10, length_mode='num_blocks')
     want = (10.0 * (2.0 / 2) ** 0.5 / 60 ** 0.5) ** 0.5 / (15 * 1 / 4.0) ** 0.5
     assert lv == pytest.approx(want, rel=1e-12)
+
+
+# ---------------------------------------------------------------------------------------------- D64 - D76 (second review round)
+def test_d64_add_time_with_single_precision_step():
+    s = sv.DataStream(sample_rate=1e3, t_start=0.0123456789, seed=1)
+    s.add_time(np.float32(0.5))
+    assert s.t_start == 0.0123456789 + 0.5
+    a = sv.Antenna(sample_rate=1e3, t_start=0.0123456789, num_pols=2, seed=1)
+    a.add_time(np.float32(0.0))
+    assert a.t_start == 0.0123456789 and a.x.t_start == 0.0123456789
+
+
+def test_d65_refused_set_time_changes_nothing():
+    arr = sv.MultiAntennaArray(num_antennas=2, sample_rate=1e3, num_pols=1, delays=[3, 0], seed=1)
+    arr.bg_streams[0].add_signal(lambda ts: np.round(np.asarray(ts) * 1e3))        # background sample j equals j
+    first = np.array(arr.get_samples(5))
+    with pytest.raises(Exception):
+        arr.set_time(None)
+    assert arr.start_obs is False
+    second = np.array(arr.get_samples(5))
+    assert np.allclose(second[1, 0], first[1, 0] + 5)
+
+
+def test_d66_single_precision_duration():
+    a = _antenna(rate=1e3, npol=1)
+    be = sv.RawVoltageBackend(a, digitizer=sv.RealQuantizer(), filterbank=sv.PolyphaseFilterbank(num_taps=2, num_branches=8),
+                              requantizer=sv.ComplexQuantizer(num_bits=8), start_chan=0, num_chans=1, block_size=12,
+                              blocks_per_file=2, num_subblocks=1)
+    d32 = np.float32(0.336)                       # 6.9999999 blocks of 0.048 s
+    assert float(d32) < 7 * 0.048
+    assert be.get_num_blocks(d32) == be.get_num_blocks(float(d32)) == 6
+    assert sv.get_total_obs_num_samples(obs_length=d32, length_mode='obs_length', num_antennas=1, sample_rate=1e3, block_size=12,
+                                        num_bits=8, num_pols=1, num_branches=8, num_chans=1) == 6 * 6 * 8
+
+
+def test_d67_get_level_with_numpy_fft_length():
+    from setigen.voltage import level_utils
+    a = _antenna(rate=1e3, npol=1)
+    be = sv.RawVoltageBackend(a, digitizer=sv.RealQuantizer(), filterbank=sv.PolyphaseFilterbank(num_taps=2, num_branches=48),
+                              requantizer=sv.ComplexQuantizer(num_bits=8), start_chan=0, num_chans=1, block_size=2000,
+                              blocks_per_file=2, num_subblocks=1)
+    lv = level_utils.get_level(10.0, be, 1000, num_blocks=4, length_mode='num_blocks')
+    assert level_utils.get_level(10.0, be, np.int16(1000), num_blocks=4, length_mode='num_blocks') == lv
+
+
+def test_d68_unparseable_directio_card(tmp_path):
+    stem = str(tmp_path / 'u')
+    _backend(_antenna()).record(stem, num_blocks=3, length_mode='num_blocks', header_dict={'DIRECTIO': 'abc', 'K1': 1}, load_template=False,
+                                verbose=False)
+    assert [len(guppi.parse_file(fn)) for fn in guppi.list_files(stem)] == [2, 1]
+    assert raw_utils.get_total_blocks(stem) == 3
+
+
+def test_d69_caller_identity_cards_on_input_raw(tmp_path):
+    stem = str(tmp_path / 'in')
+    _backend(_antenna()).record(stem, num_blocks=2, length_mode='num_blocks',
+                                header_dict={'TELESCOP': 'GBT', 'OBSERVER': 'ME', 'SRC_NAME': 'VOYAGER'}, load_template=False, verbose=False)
+    be = sv.RawVoltageBackend.from_data(input_file_stem=stem, antenna_source=_antenna(), digitizer=sv.RealQuantizer(),
+                                        filterbank=sv.PolyphaseFilterbank(num_taps=2, num_branches=4), start_chan=0, num_subblocks=1)
+    out = str(tmp_path / 'out')
+    be.record(out, header_dict={'TELESCOP': 'MINE', 'SRC_NAME': 'MYSRC'}, load_template=False, verbose=False)
+    h = dict(guppi.parse_file(out + '.0000.raw')[0]['header'])
+    assert str(h['TELESCOP']).strip().strip("'").strip() == 'MINE'
+    assert str(h['SRC_NAME']).strip().strip("'").strip() == 'MYSRC'
+    assert 'ME_SETIGEN' in str(h['OBSERVER'])          # not supplied by the caller: relabelled from the input as before
+
+
+def test_d70_dedrift_with_numpy_integer_rate():
+    fr = stg.Frame(fchans=16, tchans=4, df=64.0, dt=1.0, fch1=1e6, ascending=True)
+    fr.data[:] = np.arange(64.0).reshape(4, 16)
+    a, b = stg.dedrift(fr, np.uint8(128)), stg.dedrift(fr, 128.0)
+    assert a.data.shape == b.data.shape and np.array_equal(a.data, b.data)
+    assert b.data.shape[1] < 16
+
+
+def test_d71_get_index_container_forms_on_both_orientations():
+    a = stg.Frame(fchans=8, tchans=2, df=2.0, dt=1.0, fch1=1000.0, ascending=True)
+    d = stg.Frame(fchans=8, tchans=2, df=2.0, dt=1.0, fch1=1014.0, ascending=False)
+    fs = [1000.0, 1006.0, 1014.0]
+    assert list(a.get_index(fs)) == list(d.get_index(fs)) == [0, 3, 7]
+    assert list(a.get_index(tuple(fs))) == [0, 3, 7]
+
+
+def test_d72_scale_factor_in_double_precision():
+    from setigen.voltage import quantization as Q
+    rng = np.random.default_rng(4)
+    x = rng.normal(0.25, 1.5, 4000)
+    ref = Q.quantize_real(x, target_mean=0, target_std=13.6, num_bits=8, data_mean=0.25, data_std=1.5)
+    got = Q.quantize_real(x, target_mean=0, target_std=13.6, num_bits=8, data_mean=np.float16(0.25), data_std=np.float16(1.5))
+    assert np.array_equal(got, ref)
+
+
+def test_d73_path_function_returning_unsigned_integers():
+    def run(cast):
+        fr = stg.Frame(fchans=64, tchans=8, df=1.0, dt=1.0, fch1=100.0, ascending=True)
+        path = lambda t: cast(150 - 3 * np.round(np.asarray(t, dtype=float)))
+        return fr.add_signal(path, 1.0, stg.box_f_profile(width=2.0), stg.constant_bp_profile(level=1), doppler_smearing=True,
+                             smearing_subsamples=4)
+    assert np.allclose(run(lambda v: v.astype(np.uint64)), run(lambda v: v.astype(float)))
+
+
+def test_d74_background_streams_do_not_share_a_default_member_list():
+    s = sv.DataStream(sample_rate=48e3, seed=1)
+    s.add_noise(0, 3.0)
+    bg_a = sv.BackgroundDataStream(sample_rate=48e3, seed=2)
+    bg_a.antenna_streams.append(s)
+    bg_a.add_noise(0, 4.0)
+    bg_b = sv.BackgroundDataStream(sample_rate=48e3, seed=3)
+    assert bg_b.antenna_streams == []
+    bg_b.add_noise(0, 12.0)
+    assert s.get_total_noise_std() == pytest.approx(5.0)
+
+
+def test_d75_frame_from_8bit_file_saves_floats(tmp_path):
+    from mc.refs import sigproc as S
+    fn = str(tmp_path / 'a8.fil')
+    hdr = S.default_header(16, 1000.0, 1e-6, 1.0, source_name='S8', nbits=8)
+    S.write_fil(fn, hdr, (np.arange(64) % 90).reshape(4, 16))
+    fr = stg.Frame(waterfall=fn)
+    fr.data = np.array(fr.data, dtype=float) + 0.25
+    out = str(tmp_path / 'b.fil')
+    fr.save_fil(out)
+    h2, pay, _ = S.read_fil(out)
+    assert h2['nbits'] == 32
+    assert np.allclose(np.sort(np.asarray(pay).ravel()), np.sort(fr.data.ravel()))
+
+
+def test_d76_saved_frame_carries_its_own_source_name(tmp_path):
+    donor = stg.Frame(fchans=16, tchans=4, df=2.0, dt=1.0, fch1=1e9, source_name='DONOR')
+    fr = stg.Frame.from_data(2.0, 1.0, 1e9, False, np.ones((4, 16)), waterfall=donor.get_waterfall(), source_name='MINE')
+    fn = str(tmp_path / 'c.fil')
+    fr.save_fil(fn)
+    assert stg.Frame(waterfall=fn).source_name == 'MINE'
